@@ -149,6 +149,7 @@ func buildTable() *Node {
 				leaf("extattr", "string", ext()),
 			),
 			list("l2a", "a b", leaf("a", "string"), leaf("b", "string"), leaf("v", "string"), leaf("w", "string")),
+			list("il", "id", leaf("id", "identityref"), leaf("v", "string"), leaf("w", "string")),
 			list("l2z", "zone name", leaf("zone", "string"), leaf("name", "string"), leaf("v", "string")),
 			list("l3", "k3 k1 k2", leaf("k1", "string"), leaf("k2", "string"), leaf("k3", "string"), leaf("v", "string")),
 			list("l3a", "k1 k2 k3", leaf("k1", "string"), leaf("k2", "string"), leaf("k3", "string"), leaf("v", "string")),
